@@ -389,7 +389,7 @@ HEAP_FUNCS = ("lookup", "ident")
 
 # ----------------------------------------------------------------------------- oracle
 
-def oracle_program(prog, heapops=None, union=True, probe_default=False):
+def oracle_program(prog, heapops=None, union=True, probe_default=False, vias=("from_actions", "add", "iadd")):
     """returns (real env, list of (signature, text, statements involved)); `heapops` collects the
     transforms whose func hands back an existing action, with the heap before and after (model tie)"""
     from ekw import c13_fluent as F
@@ -475,7 +475,7 @@ def oracle_program(prog, heapops=None, union=True, probe_default=False):
     # (c) the union on the REAL path: Cascade.from_actions / + / += / deduplicate_nodes / serialise / graph2job
     if union:
         try:
-            viol += union_oracle(prog, env2, probe_default)
+            viol += union_oracle(prog, env2, probe_default, vias)
         except Exception as e:     # an exception of the union machinery is a result, not a crash of the check
             sig = {"kind": "union-raises", "error": F.err_class(e)}
             if isinstance(e, ValueError) and "truth value of an array" in str(e):
@@ -527,7 +527,7 @@ def _name_bag(nodes):
     return sorted(n.name for n in nodes)
 
 
-def union_oracle(prog, envB, probe_default=False):
+def union_oracle(prog, envB, probe_default=False, vias=("from_actions", "add", "iadd")):
     """Clause "unions de-duplicate and lowering by name is unambiguous" on the real code. The program is built a third
     time (envC) so that the builds the other oracles look at are not touched; envB is the second build.
       U1 from_actions(one build): names unique (else the collision is reported with its cause), serialise and graph2job
@@ -582,7 +582,7 @@ def union_oracle(prog, envB, probe_default=False):
     # U2/U3: unions with a second build of the same program
     same_names = _name_bag(collect_nodes(actsB)) == _name_bag(collect_nodes(actsC))
     earlier = None
-    for via in ("from_actions", "add", "iadd") if same_names else ():
+    for via in vias if same_names else ():
         if via == "from_actions":
             two = Cascade.from_actions(actsB + actsC)
         elif via == "add":
@@ -866,7 +866,7 @@ def correspond(ctx):
     from ekw import c13_fluent as F
     from ekw import c14_fresh as X
     from ekw.core import CORPUS_DIR
-    n = ctx.budget(100, 4000)
+    n = ctx.budget(90, 4000)
     progs = list(_witnesses())
     for f in sorted(glob.glob(str(CORPUS_DIR / "C14_*.json"))):
         progs.append(json.load(open(f))["prog"])
@@ -890,7 +890,9 @@ def correspond(ctx):
     for pi, p in enumerate(progs):
         hops = []
         try:
-            env, viol = oracle_program(p, hops, probe_default=pi < 2)
+            # deduplicate_nodes is quadratic: the witnesses take all three kinds of union, the others one each in turn
+            vias = ("from_actions", "add", "iadd") if pi < nw else (("from_actions", "add", "iadd")[pi % 3],)
+            env, viol = oracle_program(p, hops, probe_default=pi < 2, vias=vias)
         except Exception as e:   # the oracle itself must not crash the check
             ctx.notes.append(f"oracle error {type(e).__name__}: {str(e)[:100]}")
             env, viol, hops = F.run_real(p), [], []
